@@ -549,6 +549,11 @@ class PEval:
                 base, idx = idx, base
             if not isinstance(idx, int):
                 raise Undecided('non-constant subscript')
+            if isinstance(base, Vec):
+                # the object viewed as an array of its (equally typed, in-order) components
+                if 0 <= idx < len(base.fields):
+                    return Ord(idx, base.side)
+                raise Fault('component index %d is outside the %d components' % (idx, len(base.fields)))
             if isinstance(base, Lit):
                 x = base.deref(idx)
                 return self.wrap(x, t) if isinstance(x, int) else x
